@@ -37,12 +37,19 @@
 (*        REPLY: the "original proof info" is copied from the very slate   *)
 (*        it is then compared with (foreign.rs finalize_tx, late branch).  *)
 (*        Repair (fixes/C11-1): compare the reply with the address kept    *)
-(*        in ctx.late_lock_args before locking.                            *)
+(*        in ctx.late_lock_args before anything is selected or locked.     *)
+(*   "StrippedUnnoticed"    verify_slate_payment_proof demands a proof     *)
+(*        only if the ENTRY has proof info; an entry written from a reply  *)
+(*        without proof (late lock, lock with the reply) has none, so a    *)
+(*        stripped reply passes although ctx.payment_proof_derivation_index*)
+(*        says a proof was requested.  Repair (fixes/C11-1): demand it     *)
+(*        whenever the context requested one.                              *)
 (*   "LockTrustsSlate"      lock_tx_context copies the requested recipient *)
 (*        from whatever slate it is handed; a sender that locks with the   *)
 (*        reply (allowed: tx_lock_outputs only has to precede finalize_tx) *)
 (*        compares the reply with itself.  The repaired model remembers    *)
-(*        the request in the context.                                      *)
+(*        the request in the context (no small repair: the stored context  *)
+(*        has no such field).                                              *)
 (* Named under-modelling: the coin selection is reduced to the shapes the  *)
 (* cases use (Sel below; the algorithm itself is the business of C01), a   *)
 (* funded account holds two coinbases of Reward each.                      *)
@@ -149,11 +156,13 @@ LockEntry(cx, sel, sp, kern) ==
   IN [ex |-> TRUE, acct |-> cx.acct, db |-> sel.nin * Reward, cr |-> sel.chg, fee |-> cx.fee, kern |-> kern,
       proof |-> IF want THEN Stored(ra, rs, Addr(SenderW, cx.acct), NoSig) ELSE NoStored]
 
-ObsEnt(e) == [ex |-> e.ex, acct |-> e.acct, kern |-> e.kern, proof |-> e.proof]
+ObsEnt(e) == [ex |-> e.ex, acct |-> e.acct, kern |-> e.kern, proof |-> e.proof, db |-> e.db, cr |-> e.cr, fee |-> e.fee]
 
 DoLock(ms, stage) ==
   LET sp == IF stage = "S1" THEN ms.s1 ELSE ms.rp
-      kern == IF stage = "S1" THEN "spart" ELSE "final"
+      \* Excess(slate as handed over): the sent slate carries the sender's entry only, the reply
+      \* the recipient's only (receive_tx removes the other signature data)
+      kern == IF stage = "S1" THEN "spart" ELSE "rpart"
   IN IF ~ms.ctx.ex \/ (stage = "S2" /\ ~ms.got)
      THEN [ms EXCEPT !.last = [op |-> "lock", res |-> "skip", ent |-> ObsEnt(ms.ent)]]
      ELSE LET e == LockEntry(ms.ctx, Sel(ms.c), sp, kern)
@@ -203,6 +212,7 @@ VerifySlateProof(e, active, cx, p) ==
       mine == Addr(SenderW, active)           \* address_from_derivation_path(active, ctx index)
   IN IF ~(e.ex /\ e.acct = active) THEN "err:proof"                  \* "is account correct?"
      ELSE IF orig.ex /\ ~p.has THEN "err:proof"                      \* expected proof not present
+     ELSE IF "StrippedUnnoticed" \notin Dev /\ cx.pidx >= 0 /\ ~p.has THEN "err:proof"   \* (fixes/C11-1)
      ELSE IF ~p.has THEN "ok"
      ELSE IF ~orig.ex THEN "err:proof"                               \* original proof info not stored
      ELSE IF cx.pidx < 0 THEN "err:proof"
@@ -230,7 +240,7 @@ DoFinalize(ms, fapi) ==
      ELSE IF cx.late /\ "LateLockTrustsReply" \notin Dev /\ ~LateRequestOK(cx, p)
      THEN [ms EXCEPT !.fin = "err:proof", !.last = obs("err:proof", ms.ent)]
      ELSE
-       LET e1 == IF cx.late THEN LockEntry(cx, Sel(c), p, "final") ELSE ms.ent
+       LET e1 == IF cx.late THEN LockEntry(cx, Sel(c), p, "rpart") ELSE ms.ent
            cx1 == [cx EXCEPT !.late = FALSE]
            v == VerifySlateProof(e1, active, cx1, p)
        IN IF v # "ok"
